@@ -83,7 +83,7 @@ var kindNames = map[string]int{"Invalid": 0, "Bool": 1, "Int": 2, "Int8": 3, "In
 	"Uint32": 10, "Uint64": 11, "Uintptr": 12, "Float32": 13, "Float64": 14, "Complex64": 15, "Complex128": 16, "Array": 17, "Chan": 18, "Func": 19,
 	"Interface": 20, "Map": 21, "Pointer": 22, "Slice": 23, "String": 24, "Struct": 25, "UnsafePointer": 26}
 
-var anyType = types.NewInterfaceType(nil, nil)
+var anyType = types.Universe.Lookup("any").Type()
 
 func (fr *Frame) evalBool(e *Expr, env *Env, st *State, old *State) string {
 	v := fr.eval(e, env, st, old)
@@ -505,6 +505,41 @@ func (fr *Frame) evalCall(e *Expr, env *Env, st *State, old *State) *Val {
 			evalFail("same: sort mismatch %s vs %s", u.srt(a), u.srt(b))
 		}
 		return term(eq(a.T, b.T), B)
+	case "ceOf":
+		// the first *ConstraintError in the unwrap chain of an error (what errors.As finds), nil if none
+		x := arg(0)
+		cet := u.eng.ceType()
+		if cet == nil {
+			evalFail("ConstraintError type not found")
+		}
+		okf := u.fn("as_ce_ok", []string{"Iface"}, "Bool")
+		valf := u.fn("as_ce_val", []string{"Iface"}, "Ref")
+		_, ub := w.boxFn("Ref")
+		ck := "asce:" + x.T
+		if !u.frameDone[ck] && !strings.Contains(x.T, "|q:") {
+			u.frameDone[ck] = true
+			u.fact(implies(fmt.Sprintf("(= (ityp %s) T_nil)", x.T), not(app(okf, x.T))))
+			u.fact(implies(fmt.Sprintf("(= (ityp %s) %s)", x.T, u.ceTag()), and(app(okf, x.T), eq(app(valf, x.T), fmt.Sprintf("(%s (ival %s))", ub, x.T)))))
+			u.fact(implies(app(okf, x.T), fmt.Sprintf("(distinct %s nil)", app(valf, x.T))))
+		}
+		return term(ite(app(okf, x.T), app(valf, x.T), "nil"), types.NewPointer(cet))
+	case "sprintf0", "sprintf1", "sprintf2", "sprintf3":
+		n := int(e.name[7] - '0')
+		if len(e.args) != n+1 {
+			evalFail("%s takes %d arguments", e.name, n+1)
+		}
+		sorts := []string{"Str"}
+		ts := []string{arg(0).T}
+		for i := 1; i <= n; i++ {
+			a := arg(i)
+			if u.srt(a) != "Iface" {
+				a = fr.makeIface(a, a.Ty, anyType, st)
+			}
+			sorts = append(sorts, "Iface")
+			ts = append(ts, a.T)
+		}
+		w.declFun(e.name, sorts, "Str")
+		return term(app(e.name, ts...), types.Typ[types.String])
 	case "refof":
 		return sv(fr.refOf(arg(0)), "Ref")
 	case "any":
@@ -654,8 +689,8 @@ func (fr *Frame) evalCall(e *Expr, env *Env, st *State, old *State) *Val {
 			log := u.readLog
 			u.readLog = outerLog
 			var hs, sorts, as []string
-			for h := range log {
-				hs = append(hs, h)
+			for k := range log {
+				hs = append(hs, k)
 			}
 			sortStrings(hs)
 			for _, p := range sf.params {
@@ -663,14 +698,14 @@ func (fr *Frame) evalCall(e *Expr, env *Env, st *State, old *State) *Val {
 				as = append(as, a.T)
 				sorts = append(sorts, u.srt(a))
 			}
-			for _, h := range hs {
-				as = append(as, h)
-				sorts = append(sorts, log[h])
+			for _, k := range hs {
+				as = append(as, log[k])
+				sorts = append(sorts, u.heapSort(k))
 				if outerLog != nil {
-					outerLog[h] = log[h]
+					outerLog[k] = log[k]
 				}
 			}
-			fn := quote(fmt.Sprintf("ospec:%s/%d", sf.name, len(hs)))
+			fn := quote(fmt.Sprintf("ospec:%s/%s", sf.name, strings.Join(hs, ",")))
 			w.declFun(fn, sorts, u.srt(r))
 			app := fmt.Sprintf("(%s %s)", fn, strings.Join(as, " "))
 			if len(as) == 0 {
